@@ -227,7 +227,7 @@ class Sim:
         st["got"].append((msg.packet_id, msg.name, bool(msg.send_flags & PacketFlags.RESENT)))
         return shown
 
-    def endpoint_sends(self, e, reliable, ack_idx, as_packet_ack, drop):
+    def endpoint_sends(self, e, reliable, ack_idx, as_packet_ack, drop, kind=None):
         """endpoint e sends its next packet carrying acks for the inbox entries selected by ack_idx"""
         from hippolyzer.lib.base.message.message import Message, Block
         from hippolyzer.lib.base.message.msgtypes import PacketFlags
@@ -248,9 +248,15 @@ class Sim:
             msg = Message("PacketAck", *[Block("Packets", ID=a) for a in body], packet_id=pid, direction=self._dir(e),
                           acks=tuple(appended), flags=(PacketFlags.ACK if appended else 0))
             reliable = False
+        elif kind == "ping":
+            # a ping that names the sender's oldest unacknowledged packet: with nothing outstanding that is the ID it will use next
+            msg = Message("StartPingCheck", Block("PingID", PingID=pid % 256, OldestUnacked=pid + 1), packet_id=pid, direction=self._dir(e),
+                          acks=tuple(acks), flags=(PacketFlags.ACK if acks else 0))
         else:
+            # kind == "resent": the first copy the proxy ever sees of this packet already carries RESENT (the original was lost on the way)
             msg = Message("CompletePingCheck", Block("PingID", PingID=pid % 256), packet_id=pid, direction=self._dir(e),
-                          acks=tuple(acks), flags=(PacketFlags.RELIABLE if reliable else 0) | (PacketFlags.ACK if acks else 0))
+                          acks=tuple(acks), flags=(PacketFlags.RELIABLE if reliable else 0) | (PacketFlags.ACK if acks else 0)
+                          | (PacketFlags.RESENT if kind == "resent" else 0))
         # what the other endpoint should be shown: its own IDs for non-injected wire IDs, in order
         expect = [self.wire_to_orig[o][a] for a in acks if a in self.wire_to_orig[o]]
         inj_acked = [a for a in acks if a in self.injected[e]]
@@ -279,6 +285,10 @@ class Sim:
                 if m.name != "PacketAck" or as_packet_ack:
                     if not drop:
                         fwd += 1
+                        if m.packet_id in self.injected[o]:
+                            self.err(f"packet {pid} from {e} went out under wire ID {m.packet_id}, which the proxy used for a packet it injected")
+                        if m.packet_id in self.wire_to_orig[e] and self.wire_to_orig[e][m.packet_id] != pid:
+                            self.err(f"packet {pid} from {e} went out under wire ID {m.packet_id}, already used for its packet {self.wire_to_orig[e][m.packet_id]}")
                         self.wire_to_orig[e][m.packet_id] = pid
             else:
                 shown_e += self._deliver(e, m)
@@ -318,6 +328,8 @@ class Sim:
             return
         m = got[0][1]
         self._deliver(toward, m)
+        if m.packet_id in self.wire_to_orig[sender] or m.packet_id in self.injected[toward]:
+            self.err(f"the injected packet got wire ID {m.packet_id}, which is already in use in that direction")
         self.injected[toward][m.packet_id] = {"future": fut, "reliable": reliable, "acked": False, "resends": 0, "given_up": False}
 
     def tick(self):
@@ -372,6 +384,7 @@ EVENTS = [
     ("V", True, (0,), False, True), ("S", True, (0,), False, True), ("V", False, (0, 1, 2), True, False), ("S", False, (0, 1, 2), True, False),
     ("inject", "V", True), ("inject", "S", True), ("inject", "S", False), ("tick",),
     ("V", False, (0, 1, 2), 2, False), ("S", False, (0, 1, 2), 2, False),
+    ("V", False, (), False, False, "ping"), ("S", False, (0,), False, False, "ping"), ("V", True, (), False, False, "resent"), ("S", True, (0,), False, False, "resent"),
 ]
 
 
@@ -428,8 +441,8 @@ def bounded_circuit_histories(reg, tier, seed):
     finally:
         loop.close()
     return {"name": "proxied-circuit-histories", "evaluations": evals, "distinct_nontrivial": len(seen),
-            "rule": f"all event sequences up to length {depth} over a 12-letter alphabet (viewer/sim send reliable/unreliable with piggy-backed or "
-                    f"PacketAck acks, proxy drops, proxy injects either way, clock tick past the resend interval) + {walks} seeded random walks of "
-                    f"length {walk_len}; distinct = distinct event sequences; monitors: acks shown only for own IDs, exactly the expected ones, "
+            "rule": f"all event sequences up to length {depth} over an 18-letter alphabet (viewer/sim send reliable/unreliable with piggy-backed or "
+                    f"PacketAck acks, StartPingCheck naming the next unused ID, first sighting already RESENT, proxy drops, proxy injects either way, clock tick past the resend interval) + {walks} seeded random walks of "
+                    f"length {walk_len}; distinct = distinct event sequences; monitors: wire IDs never shared between forwarded and injected packets, acks shown only for own IDs, exactly the expected ones, "
                     "injected acks never forwarded, drop => ack to sender, resend with same ID + RESENT until acked or 10 tries, completion exactly then",
             "bounded": True, "bounds": {"depth": depth, "walks": walks, "walk_len": walk_len}, "samples": samples, "failures": failures}
